@@ -125,6 +125,12 @@ func indexOf(s, sub string) int {
 func vacuousFunction(obs []*Obligation) bool {
 	n, dead := 0, 0
 	for _, ob := range obs {
+		if ob.Cover && ob.BackEdge {
+			if ob.Res.Status == "unsat" {
+				return true // a loop body under invariants that can never complete an iteration
+			}
+			continue
+		}
 		if ob.Cover {
 			n++
 			if ob.Res.Status == "unsat" {
